@@ -442,8 +442,8 @@ func (h *c03Case) genQuota(t *rapid.T, name string, parent *c03Quota, dims []cor
 		if minBudget != nil && minBudget[d] < capv {
 			capv = minBudget[d]
 		}
-		if h.parentPods && parent == nil {
-			// generous guarantees at the top, so that non-preemptible pods get in on both levels (children still draw small)
+		if h.parentPods {
+			// generous guarantees, so that non-preemptible pods get in on both levels
 			q.Min[d] = c03AmountBig(t, d, capv, "min-"+string(d))
 		} else {
 			q.Min[d] = c03Amount(t, d, capv, "min-"+string(d))
@@ -716,6 +716,18 @@ func (h *c03Case) createPod(t *rapid.T) *c03Pod {
 				}
 			}
 			if len(parents) > 0 && rapid.IntRange(0, 2).Draw(t, "toParentQuota") == 0 {
+				var loaded []string // parents whose subtree already holds non-preemptible usage
+				for _, name := range parents {
+					for _, v := range h.modelUsed(h.quotas[name], true) {
+						if v > 0 {
+							loaded = append(loaded, name)
+							break
+						}
+					}
+				}
+				if len(loaded) > 0 && rapid.IntRange(0, 3).Draw(t, "loadedParent") > 0 {
+					parents = loaded
+				}
 				q = h.quotas[rapid.SampledFrom(parents).Draw(t, "parentQuota")]
 				h.c.Class("pod-submitted-to-parent-quota")
 			}
@@ -741,7 +753,11 @@ func (h *c03Case) createPod(t *rapid.T) *c03Pod {
 		}
 	}
 	own := h.quotas[pd.Quota]
-	if rapid.IntRange(0, 2).Draw(t, "nonPreemptible") == 0 {
+	npOdds := 2
+	if h.parentPods {
+		npOdds = 1
+	}
+	if rapid.IntRange(0, npOdds).Draw(t, "nonPreemptible") == 0 {
 		pd.NonPre = true
 		labels[extension.LabelPreemptible] = "false"
 	}
